@@ -1,7 +1,7 @@
 (* Properties/C13.v — Headers and uncles are accepted iff they satisfy the consensus rules.
    Only statements closed by `exact`, with Print Assumptions under each. *)
 From AQ Require Import Lib.Bytes Generated.GenParamsConsensus
-  Consensus.HeaderModel Consensus.HeaderSpec Consensus.HeaderProofs Consensus.BatchProofs Consensus.ChainModel Consensus.ChainProofs Consensus.DifficultyExtraModel Consensus.DifficultyProofs Consensus.AbortModel Consensus.AbortProofs.
+  Consensus.HeaderModel Consensus.HeaderSpec Consensus.HeaderProofs Consensus.BatchProofs Consensus.ChainModel Consensus.ChainProofs Consensus.DifficultyExtraModel Consensus.DifficultyProofs Consensus.AbortModel Consensus.AbortProofs Consensus.KnownProofs.
 Local Open Scope Z_scope.
 
 (* verifyHeader accepts exactly when, relative to the parent: number = parent + 1, timestamp strictly later and
@@ -254,6 +254,46 @@ Theorem C13_collector_terminates :
 Proof. exact collector_terminates. Qed.
 Print Assumptions C13_collector_terminates.
 
+(* the "already known" short cut is a function of the stored header set: it fires only for a header that IS stored (same
+   hash and number).  For a header that is not stored the verdict of VerifyHeader does not depend on what is stored at its
+   height — a near-twin of a stored block (other nonce / mix digest / extra / time) is judged as on a chain that only has
+   its ancestors *)
+Theorem C13_verify_header_ignores_stored_twins :
+  forall (c : cfg) (chain : list header) (now : Z) (h : header) (seal : bool),
+    get_header chain (h_hash h) (big_uint64 (h_number h)) = None ->
+    verify_header_top c chain now h seal =
+    verify_header_top c (drop_height chain (big_uint64 (h_number h))) now h seal.
+Proof. exact verify_header_top_ignores_height. Qed.
+Print Assumptions C13_verify_header_ignores_stored_twins.
+
+Theorem C13_twin_verdict_independent_of_store :
+  forall (c : cfg) (chain1 chain2 : list header) (now : Z) (h : header) (seal : bool),
+    get_header chain1 (h_hash h) (big_uint64 (h_number h)) = None ->
+    get_header chain2 (h_hash h) (big_uint64 (h_number h)) = None ->
+    drop_height chain1 (big_uint64 (h_number h)) = drop_height chain2 (big_uint64 (h_number h)) ->
+    verify_header_top c chain1 now h seal = verify_header_top c chain2 now h seal.
+Proof. exact twin_verdict_independent_of_store. Qed.
+Print Assumptions C13_twin_verdict_independent_of_store.
+
+(* the same for the batch worker, for the lookups it makes *)
+Theorem C13_verify_worker_ignores_stored_twins :
+  forall (c : cfg) (chain : list header) (now : Z) (hs : list header) (seals : list bool) (i : nat) (h h0 : header),
+    nth_error hs i = Some h -> nth_error hs 0 = Some h0 ->
+    get_header chain (h_hash h) (big_uint64 (h_number h)) = None ->
+    (i = 1%nat -> big_uint64 (h_number h) <> u64 (big_uint64 (h_number h0) - 1)) ->
+    verify_worker c chain now hs seals i =
+    verify_worker c (drop_height chain (big_uint64 (h_number h))) now hs seals i.
+Proof. exact verify_worker_ignores_height. Qed.
+Print Assumptions C13_verify_worker_ignores_stored_twins.
+
+(* with seal checking on, a header that is not stored is never accepted unless its seal verifies *)
+Theorem C13_unknown_header_accepted_only_with_seal :
+  forall (c : cfg) (chain : list header) (now : Z) (h : header),
+    get_header chain (h_hash h) (big_uint64 (h_number h)) = None ->
+    verify_header_top c chain now h true = Ok tt -> h_seal h = 0.
+Proof. exact unknown_header_accepted_only_with_seal. Qed.
+Print Assumptions C13_unknown_header_accepted_only_with_seal.
+
 (* the abort channel of VerifyHeaders as a logical operation: whenever the caller aborts — at any point of any schedule —
    what has been delivered so far is, in input order, what the workers compute for the first k headers, i.e. a prefix of
    what the un-aborted run delivers; nothing is delivered after the abort *)
@@ -395,3 +435,15 @@ Example C13_abort_example :
     (arun v 4 b_init false [AEv Dispatch; AEv Dispatch; AEv (Complete 1); AEv (Complete 0); AAbort; AEv Dispatch; AEv (Complete 2)])
   = Some ([Ok tt; Ok tt], true).
 Proof. exact abort_example. Qed.
+
+Example C13_known_twin_example :
+  let mk := fun hash parent num t d s => {| h_hash := hash; h_parent := parent; h_number := num; h_time := t; h_diff := d;
+                                            h_gas_limit := 4712388; h_gas_used := 0; h_extra_len := 0; h_seal := s |} in
+  let g := mk [x10] [x00] 20000 1000 46039386 0 in
+  let a1 := mk [x11] [x10] 20001 1100 46399068 0 in
+  let b := mk [x12] [x11] 20002 1200 46761560 1 in
+  let twin := mk [x77] [x11] 20002 1200 46761560 1 in
+  verify_header_top test_cfg [b; a1; g] 5000 b true = Ok tt /\
+  verify_header_top test_cfg [b; a1; g] 5000 twin true = Err (ESeal 1) /\
+  verify_header_top test_cfg [a1; g] 5000 twin true = Err (ESeal 1).
+Proof. exact known_twin_example. Qed.
